@@ -21,14 +21,19 @@ T round_pow2(T i)
 template <typename T, std::enable_if_t<std::is_integral_v<T>, bool> = true>
 T ipow(T i, T p)
 {
+    // Multiply in an unsigned type of at least the rank of int: operands of a
+    // narrower T (e.g. unsigned short) would otherwise be promoted to signed
+    // int, whose overflow is undefined.
+    using U = std::make_unsigned_t<std::common_type_t<T, int>>;
+
     T r = 1;
 
     for (; p; p >>= 1) {
         if (p & 1) {
-            r *= i;
+            r = static_cast<T>(static_cast<U>(r) * static_cast<U>(i));
         }
 
-        i *= i;
+        i = static_cast<T>(static_cast<U>(i) * static_cast<U>(i));
     }
 
     return r;
